@@ -462,6 +462,30 @@ impl Scenario for C14 {
             let value = b.json_stress();
             b.push(Step::Codec { case: CodecCase::JsonTransparent { value } });
         }
+        // application types and application-supplied JSON text
+        for _ in 0..12 {
+            let seed = b.ev_seed();
+            b.push(Step::Codec { case: CodecCase::JsonTyped { seed } });
+        }
+        for text in [
+            "{\"b\":1,\"a\":2}",
+            "{\"a\":1.10}",
+            "{\"n\":123456789012345678901234567890}",
+            "{\"n\":340282366920938463463374607431768211455}",
+            "{\"x\":1e400}",
+            "{\"x\":-0}",
+            "{\"x\":1E2}",
+            "{\"x\":0.10000000000000000000000001}",
+            "{ \"spaced\" : [ 1 , 2 ] }",
+            "{\"a\":1,\"a\":2}",
+            "{\"s\":\"\\u0041\\/\"}",
+            "[1,2]",
+            "\"text\"",
+            "null",
+            "{\"exp\":\"2030-01-01T00:00:00+00:00\"}",
+        ] {
+            b.push(Step::Codec { case: CodecCase::JsonRawText { text: text.to_string() } });
+        }
         b.finish()
     }
 }
